@@ -49,6 +49,7 @@ def check(ck):
     r10_4(ck)
     r10_5(ck)
     r10_6(ck)
+    r10_8(ck)
 
 
 def _ret_tuples(fi):
@@ -565,3 +566,130 @@ def r10_6(ck):
     ck.require(ok, 'R10.6', mv, tp[0].stmt if tp else 'target_path',
                'moved processes are reported under the target path plus '
                'the source key', None)
+
+
+def add_node_summary(ck):
+    """From the body of Store.add_node(path, node): (location of the
+    returned node relative to self, location of the attached node relative
+    to the returned node), as symbolic paths over the parameter name."""
+    from ..pathalg import eval_path
+    f = ck.fn('Store.add_node', 'core.store')
+    pth, nod = A.params_of(f.node)[1:3]
+    ret_loc, attach = None, None
+    rets = [r for r in A.walk_no_nested(f.node) if isinstance(r, ast.Return)]
+    if len(rets) != 1 or not isinstance(rets[0].value, ast.Name):
+        return f, None, None
+    rv = rets[0].value.id
+    for d in local_defs(f.node).get(rv, []):
+        v = d.value
+        if isinstance(v, ast.Call) and A.call_name(v) == '_establish_path' \
+                and A.is_name(A.call_receiver(v), 'self'):
+            ret_loc = eval_path(f.node, A.arg_of(v, 0), d.stmt)
+    for c in A.calls_in(f.node, 'update'):
+        recv = A.call_receiver(c)
+        if isinstance(recv, ast.Attribute) and recv.attr == 'inner' and \
+                A.is_name(recv.value, rv) and c.args and isinstance(
+                    c.args[0], ast.Dict) and A.is_name(
+                    c.args[0].values[0], nod):
+            k = c.args[0].keys[0]
+            if isinstance(k, ast.Subscript) and A.unparse(k.slice) == '-1' \
+                    and isinstance(k.value, ast.Name):
+                attach = [('last', k.value.id)]
+    for s2 in A.walk_no_nested(f.node):
+        if isinstance(s2, ast.Assign) and isinstance(
+                s2.targets[0], ast.Subscript) and A.unparse(
+                s2.targets[0].value) == rv + '.inner' and A.is_name(
+                s2.value, nod):
+            k = s2.targets[0].slice
+            if isinstance(k, ast.Subscript) and A.unparse(k.slice) == '-1':
+                attach = [('last', A.unparse(k.value))]
+    return f, ret_loc, attach
+
+
+def r10_8(ck):
+    ck.rule('R10.8', 'a moved subtree is reported where it was attached: '
+            'the path prefix under which Store.move reports the moved '
+            'processes equals, in a symbolic path algebra (concatenation, '
+            'p[:-1], p[-1:], path_for()), the location at which add_node '
+            'attached the node; insert and divide report under path_for() '
+            '+ the path they generated at')
+    from ..pathalg import eval_path, normalise, show
+    an, ret_loc, attach = add_node_summary(ck)
+    ck.require(ret_loc is not None and attach is not None, 'R10.8', an,
+               an.node.name,
+               'add_node attaches the node at inner[path[-1]] of the node '
+               'it establishes at path[:-1] and returns that node',
+               'the shape of Store.add_node is not recognised (returned '
+               'node / attach key)')
+    mv = ck.fn('Store.move', 'core.store')
+    calls = [c for c in A.calls_in(mv.node, 'add_node')]
+    if ret_loc is None or attach is None or not calls:
+        return
+    c = calls[0]
+    st = c
+    while not isinstance(st, ast.stmt):
+        st = st._parent
+    if not (isinstance(st, ast.Assign) and isinstance(
+            st.targets[0], ast.Name)):
+        ck.fail('R10.8', mv, st, 'the node returned by add_node is not kept',
+                st)
+        return
+    tv = st.targets[0].id
+    recv = A.unparse(A.call_receiver(c))
+    parg = A.arg_of(c, 0, 'path')
+    pname = A.params_of(an.node)[1]
+    if not isinstance(parg, ast.Name):
+        ck.fail('R10.8', mv, c, 'add_node path argument is not a local', c)
+        return
+
+    def subst(path):
+        return [(k, parg.id if v == pname else v) for k, v in path]
+    t_loc = normalise([('node', recv)] + subst(ret_loc))
+    attached = normalise(t_loc + subst(attach))
+    n = 0
+    for a in A.calls_in(mv.node, 'append'):
+        r = A.unparse(A.call_receiver(a))
+        if not r.endswith('_updates') or not a.args or not isinstance(
+                a.args[0], ast.Tuple):
+            continue
+        pe = a.args[0].elts[0]
+        val = eval_path(mv.node, pe, a, {tv: t_loc})
+        if val is None:
+            continue
+        n += 1
+        # the reported path is <prefix> + <path of the process inside the
+        # moved node>; the prefix must be the attach location
+        lp = a
+        while lp is not None and not isinstance(lp, ast.For):
+            lp = lp._parent
+        inner = A.unparse(lp.target.elts[0]) if lp is not None and \
+            isinstance(lp.target, ast.Tuple) else None
+        val = normalise(val)
+        ok = len(val) >= 1 and val[-1] == ('seq', inner) and \
+            normalise(val[:-1]) == attached
+        ck.require(ok, 'R10.8', mv, a,
+                   'reported path = %s + path inside the moved node'
+                   % show(attached),
+                   'the moved processes are reported under %s but the '
+                   'subtree was attached at %s: for a source given as a '
+                   'path of several elements the engine looks the '
+                   'processes up at a path that does not exist' % (
+                       show(val[:-1]), show(attached)), a)
+    ck.floor('R10.8', n, 3, 'reports of moved processes')
+    for q in ('Store.insert', 'Store.divide'):
+        f = ck.fn(q, 'core.store')
+        gens = [g for g in A.calls_in(f.node, 'generate')
+                if A.is_name(A.call_receiver(g), 'self')]
+        for g in gens:
+            gp = eval_path(f.node, A.arg_of(g, 0, 'path'), g)
+            for d in local_defs(f.node).get('root', []):
+                rv = eval_path(f.node, d.value, d.stmt)
+                want = normalise([('node', 'self')] + (gp or []))
+                ok = rv is not None and gp is not None and \
+                    normalise(rv) == want
+                ck.require(ok, 'R10.8', f, d.stmt,
+                           'the reported root is path_for() + the path the '
+                           'subtree was generated at',
+                           '%s reports new processes under %s but '
+                           'generates them at %s' % (
+                               q, show(rv or []), show(want)), d.stmt)
